@@ -46,7 +46,12 @@ import (
 // the default registry and the config package's hook table are process-global
 var hookMu sync.Mutex
 
-type Conf struct{ Mark, A, B, C int }
+// Conf: the instrumented configuration.  Sub is a NESTED plugin (as `source` in a provider's config or the nested
+// schedules of the composite schedule): the decoder creates it through the hooks while it fills the outer config.
+type Conf struct {
+	Mark, A, B, C int
+	Sub           Iface2
+}
 
 type Iface interface{ Serial() int }
 
@@ -128,6 +133,10 @@ type world struct {
 	products            []*comp
 	plugT               reflect.Type // the plugin interface: Iface, or core.Gun on the engine path
 	bad                 bool         // hook / engine path: the user's settings do not decode
+	vmin                int          // hook / engine path: the config type's validation rule is Conf.C >= vmin
+	yield               bool         // conc path: user code yields the processor
+	foreignFill         bool         // nest path: an error that is none of this world's is the decoder's (a nested creation failed)
+	onEndStep           func()
 	decodeFails         int
 	// engine path (constructors are called from several goroutines there: everything above is guarded by mu)
 	mu       sync.Mutex
@@ -164,6 +173,7 @@ func (w *world) fillWith(u [3]*int) func(interface{}) error {
 func (w *world) fill(conf interface{}) error { return w.fillU(w.u, conf) }
 
 func (w *world) fillU(u [3]*int, conf interface{}) error {
+	w.yieldNow()
 	w.mu.Lock()
 	defer w.mu.Unlock()
 	i := w.fills
@@ -256,6 +266,7 @@ func (w *world) constructor() interface{} {
 			out = append(out, errT)
 		}
 		return reflect.MakeFunc(reflect.FuncOf(in, out, false), func(arg []reflect.Value) []reflect.Value {
+			w.yieldNow()
 			w.mu.Lock()
 			defer w.mu.Unlock()
 			i := w.ctors
@@ -345,8 +356,9 @@ func (w *world) resOf(p interface{}, err error) string {
 		if te, ok := err.(*tErr); ok {
 			return "err." + te.Error()
 		}
-		if w.bad {
-			// the real decoder refused the user's settings: the i-th such failure is the i-th fillConf invocation
+		if w.bad || w.foreignFill || isValidationErr(err) {
+			// the real decoder refused the user's settings / the decoded config fails validation: the i-th such
+			// failure is printed as the i-th failing fillConf invocation
 			w.decodeFails++
 			return "err.fill" + strconv.Itoa(w.decodeFails-1)
 		}
@@ -369,6 +381,9 @@ func (w *world) resOf(p interface{}, err error) string {
 func (w *world) endStep(res string) {
 	w.steps = append(w.steps, strings.Join(w.evs, "|")+">"+res)
 	w.evs = nil
+	if w.onEndStep != nil {
+		w.onEndStep()
+	}
 }
 
 // guarded runs one factory call; a panic carrying one of our errors is `panic.<err>`.
@@ -377,8 +392,7 @@ func (w *world) guarded(f func() string) (res string) {
 		if r := recover(); r != nil {
 			if te, ok := r.(*tErr); ok {
 				res = "panic." + te.Error()
-			} else if e, ok := r.(error); ok && w.bad {
-				_ = e
+			} else if e, ok := r.(error); ok && (w.bad || w.foreignFill || isValidationErr(e)) {
 				w.decodeFails++
 				res = "panic.fill" + strconv.Itoa(w.decodeFails-1)
 			} else if e, ok := r.(error); ok {
@@ -408,14 +422,21 @@ func parseSet(s string) map[int]bool {
 
 func c18Run(input string) string {
 	kv := drv.KV(input)
+	if raceEnabled && kv["conc"] != "1" {
+		return "RACE-SKIP" // the -race driver is about the concurrent cases only
+	}
 	if kv["via"] == "reg" {
 		return c18Reg(kv)
 	}
 	if kv["sess"] == "1" {
 		return c18Sess(kv)
 	}
+	if kv["conc"] == "1" {
+		return c18Conc(kv)
+	}
 	w := &world{sh: parseShape(kv["sh"]), ids: map[*Conf]int{}, ff: parseSet(kv["ff"]), cf: parseSet(kv["cf"]), rf: parseSet(kv["rf"]),
 		plugT: ifaceT, bad: kv["bad"] == "1"}
+	w.vmin, _ = strconv.Atoi(kv["vmin"])
 	for i, t := range strings.Split(kv["d"], "/") {
 		w.d[i], _ = strconv.Atoi(t)
 	}
@@ -430,6 +451,9 @@ func c18Run(input string) string {
 	}
 	if kv["via"] == "hookconf" {
 		return c18HookConf(kv, w)
+	}
+	if kv["via"] == "nest" {
+		return c18Nest(kv, w)
 	}
 	k, _ := strconv.Atoi(kv["k"])
 	reg := plugin.NewRegistry()
@@ -452,6 +476,7 @@ func c18Run(input string) string {
 		old := plugin.DefaultRegistry()
 		plugin.SetDefaultRegistry(reg)
 		defer plugin.SetDefaultRegistry(old)
+		defer setRule(w.vmin)()
 	}
 	// creators for one creation with the user's settings as they are NOW in w.u
 	creators := func(fill bool) (func() (interface{}, error), func(reflect.Type) (interface{}, error)) {
@@ -792,6 +817,7 @@ func c18Engine(kv map[string]string, w *world) string {
 	old := plugin.DefaultRegistry()
 	plugin.SetDefaultRegistry(reg)
 	defer plugin.SetDefaultRegistry(old)
+	defer setRule(w.vmin)()
 	registered := func() (ok bool) {
 		defer func() {
 			if r := recover(); r != nil {
@@ -830,7 +856,7 @@ func c18Engine(kv map[string]string, w *world) string {
 		// mapstructure flattens errors into strings: find ours by name
 		if m := errPat.FindString(err.Error()); m != "" {
 			res = "decode." + m
-		} else if w.bad {
+		} else if w.bad || isValidationErr(err) {
 			res = "decode.fill0"
 		} else {
 			res = "decode.other:" + drv.Clean(err.Error())
@@ -865,7 +891,7 @@ func c18Engine(kv map[string]string, w *world) string {
 			res = "ok"
 		case errors.As(err, &te):
 			res = "err." + te.Error()
-		case w.bad:
+		case w.bad || isValidationErr(err):
 			res = "err.fill0"
 		default:
 			res = "err.other:" + drv.Clean(err.Error())
@@ -909,9 +935,12 @@ func c18Engine(kv map[string]string, w *world) string {
 }
 
 func main() {
+	raceSetup()
+	defer raceCleanup()
+	installRule()
 	pluginconfig.AddHooks() // once, before any case runs: the engine path decodes a whole engine.Config
 	drv.Main(&drv.Prop{ID: "C18", Gen: c18Gen, Run: c18Run, Class: c18Class, Workers: 8,
-		Rule: "every constructor shape (component|factory x config none|struct|*struct x ctor error x factory error x impl|interface product x default-config absent|fresh|nil|shared) x requested form (New, factory without/with error) x fillConf given or not, each run with a fault-free and a random fault plan and a random number k<=20 of calls (thorough: some k up to 120, plus EVERY fault plan over invocation indices 0..2 for k=2 and, for pointer configs, 0..3 for k=3; registrations Register must refuse: one case per shape and round); per valid shape x form one run through pluginconfig.Hook/FactoryHook with the real config decoder as fillConf and one with settings the decoder refuses; per valid shape one pool of the real engine (constructor registered with core/register.Gun, engine.Config decoded with the plugin hooks, 0..6 instances, shared or per-instance rps schedule, faults at warm-up / first instance); per valid shape two histories (direct and through the hooks): 2..4 creations on ONE registration, each of a random form with its own user settings and 0..4 calls, one fault plan over the running invocation indices; Register driven over constructor and default-config TYPES (supported forms and their neighbours: arity, result kinds, config kinds, implements, default-config function type, plugin type, name, duplicate); SESSIONS (1500 quick / 60000 thorough): ONE registry with 1..5 registrations over 3 plugin interfaces (two of them with the same type NAME in different packages) x 4 names (same name under several types, names that differ by letter case only, now and then an empty name, a duplicate, a default-config function that does not fit, a late Register), each registration with its own instrumented user code and fault plan, then 4..15 operations: New / NewFactory by (type, name) of which about a third was never registered, calls of ANY factory handed out so far in any interleaving with later creations (also one past the end), Lookup; per valid shape one creation for another name / another plugin type than the registered one, directly or through the hooks (nm=, pt=); per valid shape two runs of pluginconfig.Hook / FactoryHook on well- and ill-formed plugin config data (via=hookconf: the `type` key in any letter case and near-miss spellings, none / several / non-string / empty / unknown names, the three kinds of data a decoder hands over incl. non-string keys, a type without plugins); non-trivial = at least one call, a refused registration, a type case, a session, a lookup failure"})
+		Rule: "every constructor shape (component|factory x config none|struct|*struct x ctor error x factory error x impl|interface product x default-config absent|fresh|nil|shared) x requested form (New, factory without/with error) x fillConf given or not, each run with a fault-free and a random fault plan and a random number k<=20 of calls (thorough: some k up to 120, plus EVERY fault plan over invocation indices 0..2 for k=2 and, for pointer configs, 0..3 for k=3; registrations Register must refuse: one case per shape and round); per valid shape x form one run through pluginconfig.Hook/FactoryHook with the real config decoder as fillConf and one with settings the decoder refuses; per valid shape one pool of the real engine (constructor registered with core/register.Gun, engine.Config decoded with the plugin hooks, 0..6 instances, shared or per-instance rps schedule, faults at warm-up / first instance); per valid shape two histories (direct and through the hooks): 2..4 creations on ONE registration, each of a random form with its own user settings and 0..4 calls, one fault plan over the running invocation indices; Register driven over constructor and default-config TYPES (supported forms and their neighbours: arity, result kinds, config kinds, implements, default-config function type, plugin type, name, duplicate); SESSIONS (1500 quick / 60000 thorough): ONE registry with 1..5 registrations over 3 plugin interfaces (two of them with the same type NAME in different packages) x 4 names (same name under several types, names that differ by letter case only, now and then an empty name, a duplicate, a default-config function that does not fit, a late Register), each registration with its own instrumented user code and fault plan, then 4..15 operations: New / NewFactory by (type, name) of which about a third was never registered, calls of ANY factory handed out so far in any interleaving with later creations (also one past the end), Lookup; per valid shape one creation for another name / another plugin type than the registered one, directly or through the hooks (nm=, pt=); per valid shape two runs of pluginconfig.Hook / FactoryHook on well- and ill-formed plugin config data (via=hookconf: the `type` key in any letter case and near-miss spellings, none / several / non-string / empty / unknown names, the three kinds of data a decoder hands over incl. non-string keys, a type without plugins); round 3: on every hook / engine / hookconf case a VALIDATION RULE of the config type (config.RegisterCustom: Conf.C >= vmin, vmin one of 0 0 0 1 1 30 60 95) with the real config.DecodeAndValidate as fillConf, every fourth case with settings that consist of the `type` key only (so the default / zero configuration decides), histories through the hooks with valid and invalid creations mixed; per valid shape with a config one NESTED creation (via=nest: the outer configuration contains a plugin field, the decoder creates the nested component of a second registration through the hooks while it fills the outer config; own shapes, settings, fault plans and the rule on both sides); 150 (thorough 4000) CONCURRENT cases (conc=1: 2..6 plain creations side by side on one registry, one goroutine each; the driver built with -race runs exactly these and reports a case during which the race runtime logged a data race); non-trivial = at least one call, a refused registration, a type case, a session, a lookup failure"})
 }
 
 func c18Class(input, obs string) string {
@@ -921,6 +950,30 @@ func c18Class(input, obs string) string {
 	}
 	if kv["sess"] == "1" {
 		return sessClass(input, obs)
+	}
+	if kv["conc"] == "1" {
+		c := fmt.Sprintf("conc-%d", strings.Count(kv["cases"], "@@")+1)
+		switch {
+		case strings.Contains(obs, "PANIC"):
+			return c + "-crash"
+		case strings.Contains(obs, "panic."):
+			return c + "-panic"
+		case strings.Contains(obs, "err."):
+			return c + "-err"
+		}
+		return c + "-ok"
+	}
+	if kv["via"] == "nest" {
+		c := "nest-" + kv["sh"][:2] + "-" + kv["ish"][:2]
+		switch {
+		case obs == "regpanic" || obs == "HANG" || strings.HasPrefix(obs, "PANIC"):
+			return c + "-" + strings.ToLower(strings.Fields(obs)[0])
+		case strings.Contains(obs, "panic."):
+			return c + "-panic"
+		case strings.Contains(obs, "err."):
+			return c + "-err"
+		}
+		return c + "-ok"
 	}
 	if kv["via"] == "hookconf" {
 		res := drv.KV(obs)["res"]
@@ -984,6 +1037,9 @@ func c18Class(input, obs string) string {
 	return c + "-ok"
 }
 
+// vminGen: the validation rule `Conf.C >= vmin` of a hook / engine case (values of C are 0 = unset or 1..90)
+func vminGen(r *rand.Rand) int { return []int{0, 0, 0, 1, 1, 30, 60, 95}[r.Intn(8)] }
+
 func subset(r *rand.Rand, n int) string {
 	var out []string
 	p := []float64{0.1, 0.3, 0.6}[r.Intn(3)]
@@ -1000,6 +1056,23 @@ func c18Gen(r *rand.Rand, tier string) []string {
 	if tier == "thorough" {
 		rounds = 700
 	}
+	if raceEnabled {
+		// the -race driver: the concurrent cases only (made from the plain cases of a few rounds)
+		if rounds > 40 {
+			rounds = 40
+		}
+		var conc []string
+		for _, c := range c18GenRounds(r, tier, rounds) {
+			if strings.HasPrefix(c, "conc=1") {
+				conc = append(conc, c)
+			}
+		}
+		return conc
+	}
+	return c18GenRounds(r, tier, rounds)
+}
+
+func c18GenRounds(r *rand.Rand, tier string, rounds int) []string {
 	var out []string
 	val := func() string { return strconv.Itoa(r.Intn(90) + 1) }
 	for round := 0; round < rounds; round++ {
@@ -1054,8 +1127,11 @@ func c18Gen(r *rand.Rand, tier string) []string {
 												u[i] = val()
 											}
 										}
-										s := fmt.Sprintf("via=hook sh=%c%c%c%c%c%c form=%s fill=1 d=%s/%s/%s u=%s k=%d ff=",
-											fa, cfg, ce, fe, ifc, df, form, val(), val(), val(), strings.Join(u, "/"), k)
+										if r.Intn(4) == 0 {
+											u = []string{"_", "_", "_"} // the settings are the `type` key only
+										}
+										s := fmt.Sprintf("via=hook sh=%c%c%c%c%c%c form=%s fill=1 d=%s/%s/%s u=%s k=%d vmin=%d ff=",
+											fa, cfg, ce, fe, ifc, df, form, val(), val(), val(), strings.Join(u, "/"), k, vminGen(r))
 										if r.Intn(2) == 0 {
 											s += fmt.Sprintf(" cf=%s rf=%s", subset(r, k+2), subset(r, k+2))
 										} else {
@@ -1063,6 +1139,11 @@ func c18Gen(r *rand.Rand, tier string) []string {
 										}
 										out = append(out, s)
 									}
+								}
+								if !refused && cfg != 'n' && df != 's' {
+									// a nested plugin in this shape's configuration (not for one shared default pointer: there the
+									// decoder decodes every new nested component INTO the one the shared config already holds)
+									out = append(out, nestGen(r, fmt.Sprintf("%c%c%c%c%c%c", fa, cfg, ce, fe, ifc, df)))
 								}
 								if !refused {
 									for i := 0; i < 2; i++ {
@@ -1098,8 +1179,11 @@ func c18Gen(r *rand.Rand, tier string) []string {
 									few := func() string { // faults only where the engine is still sequential: warm-up and first instance
 										return []string{"", "", "", "0", "1", "0,1"}[r.Intn(6)]
 									}
-									s := fmt.Sprintf("via=engine sh=%c%c%c%c%c%c fill=1 d=%s/%s/%s u=%s inst=%d per=%d cf=%s rf=%s",
-										fa, cfg, ce, fe, ifc, df, val(), val(), val(), strings.Join(u, "/"), r.Intn(7), r.Intn(2), few(), few())
+									if r.Intn(4) == 0 {
+										u = []string{"_", "_", "_"} // gun: {type: c18gun}
+									}
+									s := fmt.Sprintf("via=engine sh=%c%c%c%c%c%c fill=1 d=%s/%s/%s u=%s inst=%d per=%d cf=%s rf=%s vmin=%d",
+										fa, cfg, ce, fe, ifc, df, val(), val(), val(), strings.Join(u, "/"), r.Intn(7), r.Intn(2), few(), few(), vminGen(r))
 									if r.Intn(10) == 0 {
 										s += " bad=1"
 									}
@@ -1126,6 +1210,10 @@ func c18Gen(r *rand.Rand, tier string) []string {
 											phs = append(phs, fmt.Sprintf("%s:%d:%s:%d", forms[r.Intn(3)], fill, strings.Join(pu, "/"), pk))
 										}
 										hs := fmt.Sprintf("%shist=1 sh=%c%c%c%c%c%c d=%s/%s/%s ph=%s", via, fa, cfg, ce, fe, ifc, df, val(), val(), val(), strings.Join(phs, "|"))
+										if via != "" && df != 's' {
+											// the validation rule of the config type: some creations of the history are refused, others not
+											hs += fmt.Sprintf(" vmin=%d", vminGen(r))
+										}
 										if r.Intn(2) == 0 {
 											ffs := subset(r, total)
 											if via != "" {
@@ -1144,6 +1232,18 @@ func c18Gen(r *rand.Rand, tier string) []string {
 				}
 			}
 		}
+	}
+	// the same creations side by side on ONE registry, concurrently
+	var plain []string
+	for _, c := range out {
+		if strings.HasPrefix(c, "sh=") && !strings.Contains(c, " nm=") && len(plain) < 4000 {
+			plain = append(plain, c)
+		}
+	}
+	if tier == "thorough" {
+		out = append(out, concGen(r, plain, 4000)...)
+	} else {
+		out = append(out, concGen(r, plain, 150)...)
 	}
 	out = append(out, regCases(r, tier)...)
 	if tier == "thorough" {
